@@ -656,7 +656,7 @@ func c08gen(c *h.Ctx, yield func(*h.Case)) {
 		yield(&h.Case{Class: "retry:early", Ops: []string{l}})
 	}
 	// two handshakes with one listener that overlap; a client with a session cache reconnects (round 7)
-	c08interleaveGen(c, yield)
+	c08interleaveGen(c, yield, "other")
 	c08resumeGen(c, yield)
 	suitesL := []string{"ed", "g1", "g2"}
 	// the configuration dimension UnauthOk (round 7): the rows about the declared identity, and the honest
@@ -817,6 +817,7 @@ func c08gen(c *h.Ctx, yield func(*h.Case)) {
 	}
 	// the bytes of a key name: pubToCN / pubFromCN called directly (round 7)
 	c08nameGen(c, yield)
+	c08interleaveGen(c, yield, "own", "swap")
 	// what NewTLSConn wants before it sends anything (round 5)
 	for _, suite := range suitesL {
 		for _, addr := range []string{"tls", "tcp", "local"} {
